@@ -156,12 +156,17 @@ pub fn check_c04(sc: &SyncSc, world: World, rep: &mut RunReport, salt: u64) -> O
             rep.fail("c04.no_staging_left", "staging-file-left-after-success", format!("{dir_name}: {left:?}"));
             return None;
         }
-        // quick-check matches: no mutating call at all on them
-        let dmut = mutating_ops_under(&out.trace, dh, DST_ROOT);
+        // quick-check matches: no mutating call at all on them (exact path comparison on the trace)
         for p in &plan.skipped {
             let full = format!("{DST_ROOT}/{p}");
-            if let Some(m) = dmut.iter().find(|m| m.contains(&full) && !m.contains(&format!("{full}/")) && m.split(' ').nth(1).map_or(false, |x| x == full || x == format!("{full}.copia-tmp"))) {
-                rep.fail("c04.skipped_untouched", "quick-check-match-was-touched", format!("{dir_name}: {m}"));
+            let staged = format!("{full}.copia-tmp");
+            if let Some(r) = out.trace.iter().find(|r| {
+                r.host == dh
+                    && r.mutating
+                    && (r.effect || matches!(r.kind, OpKind::Unlink | OpKind::Rename | OpKind::Write | OpKind::SetMtime))
+                    && (r.path == full || r.path2 == full || r.path == staged || r.path2 == staged)
+            }) {
+                rep.fail("c04.skipped_untouched", "quick-check-match-was-touched", format!("{dir_name}: {:?} {:?} {:?}", r.kind, r.path, r.path2));
                 return None;
             }
         }
